@@ -38,4 +38,30 @@ eexists; split.
   by case: i => [[|[|i]] hi] //; case: j => [[|[|j]] hj].
 Qed.
 
+
+(* a run with a breakdown that is NOT followed by an exit: A = I_2, start e_1, budget 2 (with num_iter = 2 the loop has no
+   break test).  beta_0 = 0, m = 2: the hypotheses of the last clause of C09_breakdown_prefix hold with w = 1. *)
+Definition exI : mat F := [:: [:: 1; 0]; [:: 0; 1]].
+Definition exG2 : lz_args F :=
+  MkArgs true (tensor_mm (ArR F) 1 [:: exI]) 2 2 [::] (Some (MkInit true false [::] 2 1 exInit)) 1 [::] tol brk 10 true.
+
+Lemma ex_breakdown_satisfiable :
+  exists o,
+    [/\ lanczos_tridiag (ArR F) exG2 = Ok o /\ lz_start exG2 = Ok (1%N, exInit),
+        (0 < size (o_Q o))%N /\ (0 < 1 <= o_m o)%N /\ (1 < o_m o)%N,
+        cv 2 exInit (col_of (prodn (g_batch exG2)) 1 0) != 0,
+        mget (ArR F) (nth [::] (o_T o) 0) 0 1 = 0 &
+        (forall X, cv 2 (g_mm exG2 X) 0 = mx_of 2 2 exI *m cv 2 X 0) /\ (mx_of 2 2 exI)^T = mx_of 2 2 exI].
+Proof.
+eexists; split.
+- by split; [rewrite /lanczos_tridiag /=; reflexivity | reflexivity].
+- by [].
+- apply/eqP => /colP /(_ ord0); rewrite !mxE /= => /eqP; by rewrite oner_eq0.
+- rewrite /mget /= /tget /trow /tset /= /vget /= /norm2 /dot /= /vget /= /rowdot /=.
+  by rewrite !(mulr0, mul0r, mulr1, mul1r, addr0, add0r, subr0, sqrtr1, divr1, invr1, subrr, sqrtr0, oppr0).
+- split; first by move=> X; apply: (@dense_mm_lin F 2 1 [:: exI] 0) => // -[|[|i]].
+  apply/matrixP => i j; rewrite !mxE.
+  by case: i => [[|[|i]] hi] //; case: j => [[|[|j]] hj].
+Qed.
+
 End Ex.
